@@ -419,8 +419,10 @@ def teleport(
             and isinstance(state.grid[position], Telepod)
             and state.grid[position].color == telepod.color
         ]
-        i = rng.choice(len(positions))
-        state.agent.position = positions[i]
+        # an unpaired telepod does not teleport
+        if positions:
+            i = rng.choice(len(positions))
+            state.agent.position = positions[i]
 
 
 def factory(name: str, **kwargs) -> TransitionFunction:
